@@ -284,7 +284,25 @@ def _is_default_keyword(expr, kwname):
     return False
 
 
+def _binding_count(fn, name):
+    n = sum(1 for a in ast.walk(fn.args) if isinstance(a, ast.arg) and a.arg == name)
+    for s in ast.walk(fn):
+        if isinstance(s, ast.Name) and s.id == name and isinstance(s.ctx, ast.Store):
+            n += 1
+    return n
+
+
 def _takes_over(ref_fn, cur_fn, x, y):
+    # the reference binds x more often than the current function does, and the new local y is bound by plain assignments only:
+    # a variable that was reused (rebound) in the reference has been split into two names
+    ys_ = [s for s in ast.walk(cur_fn) if isinstance(s, ast.Name) and s.id == y and isinstance(s.ctx, ast.Store)]
+    plain = [s for s in ast.walk(cur_fn) if isinstance(s, ast.Assign) and len(s.targets) == 1 and isinstance(s.targets[0], ast.Name) and s.targets[0].id == y]
+    if ys_ and len(ys_) == len(plain) and _binding_count(cur_fn, x) < _binding_count(ref_fn, x):
+        return True
+    return _takes_over_values(ref_fn, cur_fn, x, y)
+
+
+def _takes_over_values(ref_fn, cur_fn, x, y):
     """every binding of the new local y in the current function is a plain assignment of a value that the reference function
     assigns to x"""
     ys = [s for s in ast.walk(cur_fn) if isinstance(s, (ast.Assign, ast.AugAssign, ast.AnnAssign, ast.For, ast.With, ast.NamedExpr, ast.comprehension))
@@ -350,6 +368,17 @@ def classify(ref_rec, cur_rec):
                     same_body = False
                 if same_body:       # (negated test with swapped branches is the same statement)
                     v, d = 'mutation', 'condition negated'
+        if v == 'mutation' and ref_rec[0] in ('if', 'while') and d in ('equality test negated', 'identity test negated', 'membership test negated') \
+                and isinstance(ref_rec[2], ast.If) and isinstance(cur_rec[2], ast.If):
+            rn, cn = ref_rec[2], cur_rec[2]
+            try:
+                def keys2(block):
+                    return [_key(x) for x in records_of(block)]
+                same_body = keys2(rn.body) == keys2(cn.body) and keys2(rn.orelse) == keys2(cn.orelse)
+            except Exception:
+                same_body = True
+            if not same_body:
+                v, d = 'different', None     # the branches were rearranged along with the test: a rewrite, not a one-token slip
         if v == 'mutation' and d.startswith('keyword argument') and 'dropped' in d:
             # dropping a keyword that spelled out the default (library table or the repository's own declaration)
             parts = d.split()
@@ -421,6 +450,24 @@ def diff_function(ref_fn, cur_fn):
             parts = d.split()
             if len(parts) >= 5 and frozenset((parts[1], parts[4])) in aliases:
                 v = 'different'
+        if v == 'mutation' and ('disjunct added' in d or 'conjunct added' in d) and isinstance(r[2], ast.If) and isinstance(c[2], ast.If):
+            # two statements merged: `if A: X` + `if B: X`  ->  `if A or B: X`   /   `if A: if B: X`  ->  `if A and B: X`
+            want_or = 'disjunct' in d
+            cur_vals = c[2].test.values if isinstance(c[2].test, ast.BoolOp) else [c[2].test]
+            ref_vals = r[2].test.values if isinstance(r[2].test, ast.BoolOp) else [r[2].test]
+            added = [x for x in cur_vals if not any(treecmp.compare(x, y)[0] == 'equal' for y in ref_vals)]
+            merged = False
+            if added:
+                for other in ast.walk(ref_fn):
+                    if isinstance(other, ast.If) and other is not r[2]:
+                        ovals = other.test.values if (isinstance(other.test, ast.BoolOp) and isinstance(other.test.op, ast.Or if want_or else ast.And)) else [other.test]
+                        if all(any(treecmp.compare(x, y)[0] == 'equal' for y in ovals) for x in added):
+                            same = [_key(x) for x in records_of(other.body)] == [_key(x) for x in records_of(r[2].body)]
+                            nested = (not want_or) and any(other is x for x in ast.walk(r[2]))
+                            if (want_or and same) or nested:
+                                merged = True
+            if merged:
+                v = 'different'
         if v != 'equal':
             findings.append([v, d, r, c])
     # a deleted accumulation: an augmented assignment of the reference whose target is not written by ANY statement of the
@@ -439,7 +486,22 @@ def diff_function(ref_fn, cur_fn):
     for rec in C:
         for comp in rec[1]:
             cur_names |= _names(comp)
+    # statements may have moved into a helper that the reference does not have (extract method): then nothing was deleted
+    moved_out = False
+    try:
+        from . import alpha as _alpha
+        prog = _PROG[0]
+        if prog is not None:
+            called = {(x.func.attr if isinstance(x.func, ast.Attribute) else getattr(x.func, 'id', None)) for x in ast.walk(cur_fn) if isinstance(x, ast.Call)}
+            for f_ in prog.functions.values():
+                if f_.name in called and _alpha.is_new_function(f_.qual):
+                    moved_out = True
+                    break
+    except Exception:
+        moved_out = False
     for rec in deleted:
+        if moved_out:
+            break
         if rec[0].startswith('aug'):
             tgt = src(rec[1][0]).replace(' ', '')
             base = tgt.split('[')[0].split('.')[0]
